@@ -161,10 +161,28 @@ func gsubRules(info *gtab.Info, name func(glyph.ID) string) ([]string, bool) {
 	return rules, true
 }
 
-func c10list(k *mon.Case, f *sfnt.Font, n int) []glyph.ID {
+func c10list(k *mon.Case, f *sfnt.Font, n int, info *fontgen.Info) []glyph.ID {
 	r := k.Rng
 	var list []glyph.ID
 	list = append(list, 0)
+	if len(info.ChainInputs) > 0 && r.IntN(2) == 0 {
+		// the components of a ligature chain without the ligature glyphs: the
+		// subsetter has to add those over several rounds
+		avoid := map[glyph.ID]bool{}
+		for _, g := range info.ChainOutputs {
+			avoid[g] = true
+		}
+		in := append([]glyph.ID{}, info.ChainInputs...)
+		for _, i := range r.Perm(n - 1)[:r.IntN(min(n-1, 6))] {
+			if g := glyph.ID(i + 1); !avoid[g] {
+				in = append(in, g)
+			}
+		}
+		in = uniqueSorted(in)
+		r.Shuffle(len(in), func(i, j int) { in[i], in[j] = in[j], in[i] })
+		k.Class("list:ligature-chain-components-only")
+		return append(list, in...)
+	}
 	switch r.IntN(6) {
 	case 0: // only .notdef
 	case 1: // everything, in order
@@ -207,7 +225,7 @@ func runC10(c *mon.Ctx) {
 			f = readBack(k, f)
 		}
 		n := f.NumGlyphs()
-		list := c10list(k, f, n)
+		list := c10list(k, f, n, info)
 		desc := fmt.Sprintf("kind=%s glyphs=%d cmap=%s layout=%v list=%v", info.Kind, n, info.CMap, info.Classes, list)
 		if len(desc) > 700 {
 			desc = desc[:700] + "…"
@@ -390,13 +408,35 @@ func runC10(c *mon.Ctx) {
 				k.Fail("mismatch", "gpos-dropped", "subset has no GPOS (%s)", desc)
 				return
 			}
+			// the meaning of the table for a pair: in every lookup the first
+			// subtable that lists the pair decides (also with an empty
+			// adjustment), the lookups apply one after the other
 			pairs := func(info *gtab.Info) map[glyph.Pair]string {
+				vr := func(v *gtab.GposValueRecord) string {
+					if v == nil {
+						v = &gtab.GposValueRecord{}
+					}
+					return fmt.Sprintf("%+v", *v)
+				}
+				zero := fmt.Sprintf("[%s/%s]", vr(nil), vr(nil))
 				res := map[glyph.Pair]string{}
 				for _, l := range info.LookupList {
+					decided := map[glyph.Pair]bool{}
 					for _, st := range l.Subtables {
 						if p, ok := st.(gtab.Gpos2_1); ok {
 							for pr, adj := range p {
-								res[pr] = fmt.Sprintf("%+v/%+v", adj.First, adj.Second)
+								if decided[pr] {
+									continue
+								}
+								decided[pr] = true
+								if adj == nil {
+									adj = &gtab.PairAdjust{}
+								}
+								// (an all-zero adjustment moves nothing: the same
+								// meaning as a pair that is not listed at all)
+								if e := fmt.Sprintf("[%s/%s]", vr(adj.First), vr(adj.Second)); e != zero {
+									res[pr] += e
+								}
 							}
 						}
 					}
@@ -480,6 +520,31 @@ func runC10(c *mon.Ctx) {
 						listed := map[string]bool{}
 						for _, g := range list {
 							listed[fmt.Sprint(int(g))] = true
+						}
+						// glyphs the rules themselves produce from the listed ones
+						// (over any number of rounds) count as listed here: the
+						// narrower class is about glyphs that entered the subset
+						// only as components of composite glyphs
+						if raw, ok := gsubRules(f.Gsub, func(g glyph.ID) string { return fmt.Sprint(int(g)) }); ok {
+							for changed := true; changed; {
+								changed = false
+								for _, ru := range raw {
+									i := strings.Index(ru, " -> ")
+									all := true
+									for _, g := range strings.Fields(ru[:i]) {
+										all = all && listed[g]
+									}
+									if !all {
+										continue
+									}
+									for _, g := range strings.Fields(ru[i+4:]) {
+										if !listed[g] {
+											listed[g] = true
+											changed = true
+										}
+									}
+								}
+							}
 						}
 						gotSet := map[string]bool{}
 						for _, ru := range nrules {
@@ -583,7 +648,7 @@ func runC10(c *mon.Ctx) {
 		f, info := fontgen.Font(r, fontgen.Opts{Kind: []string{"cff", "cid"}[k.Index%2], MinGlyphs: 2, MaxGlyphs: 40, Plain: true})
 		o := f.Outlines.(*cff.Outlines)
 		n := len(o.Glyphs)
-		list := c10list(k, f, n)
+		list := c10list(k, f, n, info)
 		var so *cff.Outlines
 		if k.Guard("cff.Outlines.Subset", func() { so = o.Subset(append([]glyph.ID{}, list...)) }) {
 			return
@@ -628,7 +693,7 @@ func runC10(c *mon.Ctx) {
 		}
 		k.Class("cff-outlines-subset:" + info.Kind)
 	})
-	c.Require("kind=glyf", "kind=cff", "kind=cid", "cmap-compared", "encoding-compared", "kerning-compared", "gsub-rules-compared",
+	c.Require("list:ligature-chain-components-only", "kind=glyf", "kind=cff", "kind=cid", "cmap-compared", "encoding-compared", "kerning-compared", "gsub-rules-compared",
 		"written-and-read-back", "extras-appended:glyf", "cff-outlines-subset:cff", "cff-outlines-subset:cid")
 }
 
